@@ -76,10 +76,15 @@ class Outcome:
         s.st, s.kind, s.val, s.exc = st, kind, val, exc     # kind: fall | return | raise | break | continue
 
 
+class ZipSeqs(list):
+    """the sequences iterated in lock-step by zip(...): used only to build instantiation patterns (At(s, k) for each of them)"""
+    def sort(self): return None
+
+
 class FunctionSpec:
     def __init__(self, qual, file, params, returns=None, requires=None, ensures=None, modifies=(), raises=None, loops=None,
-                 locals=None, decreases=None, generator=False, defaults=None, cls=None, ghost=None, pure=False, note='', name=None, constructs=None, globals_=None, isinstance_preds=None, opaque_functions=(), numpy_division=False, returns_optional=False, var_keyword=False):
-        self.returns_optional = returns_optional; self.var_keyword = var_keyword; self.name = name or qual; self.constructs = constructs; self.globals_ = globals_ or {}; self.isinstance_preds = isinstance_preds or {}; self.opaque_functions = set(opaque_functions); self.numpy_division = numpy_division
+                 locals=None, decreases=None, generator=False, defaults=None, cls=None, ghost=None, pure=False, note='', name=None, constructs=None, globals_=None, isinstance_preds=None, opaque_functions=(), numpy_division=False, returns_optional=False, var_keyword=False, lemmas=None):
+        self.lemmas = lemmas or {}; self.returns_optional = returns_optional; self.var_keyword = var_keyword; self.name = name or qual; self.constructs = constructs; self.globals_ = globals_ or {}; self.isinstance_preds = isinstance_preds or {}; self.opaque_functions = set(opaque_functions); self.numpy_division = numpy_division
         self.qual, self.file, self.params, self.returns = qual, file, params, returns
         self.requires = requires or (lambda o: BoolVal(True)); self.ensures = ensures or (lambda o, n, r: [])
         self.modifies = list(modifies); self.raises = raises or {}; self.loops = loops or {}; self.locals = locals or {}
@@ -88,8 +93,8 @@ class FunctionSpec:
 
 
 class LoopSpec:
-    def __init__(self, inv, modifies=None, decreases=None):
-        self.inv, self.modifies, self.decreases = inv, modifies, decreases
+    def __init__(self, inv, modifies=None, decreases=None, body_lemmas=None):
+        self.inv, self.modifies, self.decreases, self.body_lemmas = inv, modifies, decreases, body_lemmas
 
 
 _oid = itertools.count(1)
@@ -210,6 +215,13 @@ class Engine:
         name = base if n == 0 else '%s~%d' % (base, n)
         self.obls.append(Obl(name, st.pc, goal)); st.pc.append(goal)
 
+    def ghost_lemmas(self, tgt, st):
+        """sidecar ghost assertions: FunctionSpec.lemmas[name](old, view) -> [(label, formula)] is PROVED (assert) right after each assignment to the
+        local `name` and then assumed -- intermediate facts (e.g. 'this comprehension result is the spec list RawList(...)') that guide the prover"""
+        if isinstance(tgt, ast.Name) and tgt.id in self.spec.lemmas:
+            for label, g in self.spec.lemmas[tgt.id](self.old, self.view(st)):
+                self.oblige(st, 'lemma', '%s.%s' % (tgt.id, label), g)
+
     def need_not_none(self, st, v, what):
         none = getattr(v, 'none', False)
         if none is not False:
@@ -233,6 +245,9 @@ class Engine:
         for gname, mk in spec.ghost.items(): old[gname] = mk(old)
         st.pc.append(spec.requires(old))
         self.obls.append(Obl(qual + '#canary.entry', st.pc, BoolVal(False), kind='canary'))
+        if '$entry' in spec.lemmas:
+            # ghost lemmas about the spec functions, PROVED once from the precondition and then available to every later obligation
+            for label, g in spec.lemmas['$entry'](old): self.oblige(st, 'lemma', 'entry.' + label, g)
         if spec.generator:
             st.yields = self.new_root(st, spec.returns, spec.returns.th().Emp, name='ys')
         outs = self.block(fn.body, st)
@@ -372,9 +387,9 @@ class Engine:
                 if isinstance(f, ast.Name) and f.id in ('print', 'warn'): return F()
                 self.expr(s.value, st); return F()
         if isinstance(s, ast.Assign) and len(s.targets) == 1:
-            self.assign(s.targets[0], s.value, st); return F()
+            self.assign(s.targets[0], s.value, st); self.ghost_lemmas(s.targets[0], st); return F()
         if isinstance(s, ast.AnnAssign) and s.value is not None:
-            self.assign(s.target, s.value, st); return F()
+            self.assign(s.target, s.value, st); self.ghost_lemmas(s.target, st); return F()
         if isinstance(s, ast.AugAssign): self.augassign(s, st); return F()
         if isinstance(s, ast.Return):
             v = self.expr(s.value, st, hint=self.spec.returns if not self.spec.generator else None) if s.value is not None else PNone()
@@ -604,7 +619,8 @@ class Engine:
                 hi = parts[0][1]
                 for p in parts[1:]:
                     h = FreshConst(IntSort(), 'zl'); st.pc.append(h == If(hi <= p[1], hi, p[1])); hi = h
-                return IntVal(0), hi, (lambda state, k: PTup([p[2](state, k) for p in parts])), [r for p in parts for r in p[3]], None
+                seqs = ZipSeqs([p[4] for p in parts if p[4] is not None and not isinstance(p[4], ZipSeqs)])
+                return IntVal(0), hi, (lambda state, k: PTup([p[2](state, k) for p in parts])), [r for p in parts for r in p[3]], (seqs if seqs else None)
         if isinstance(it, ast.Call) and isinstance(it.func, ast.Attribute) and it.func.attr in ('items', 'keys', 'values') and not it.args:
             d = self.expr(it.func.value, st)
             if isinstance(d, PRef) and isinstance(d.t, TDict):
@@ -671,6 +687,9 @@ class Engine:
         self.obls.append(Obl('%s#canary.%s' % (self.fname, name), h.pc + [lo <= k, k <= hi, inv(h, k)], BoolVal(False), kind='canary'))
         body = h.clone(); body.pc += [lo <= k, k < hi, inv(body, k)]
         self.bind_target(s.target, binder(body, k), body)
+        if spec.body_lemmas is not None:
+            # ghost lemmas at the head of the k-th iteration (proved from the invariant at k, then assumed in the body)
+            for label, g in spec.body_lemmas(ctx, self.view(body), k): self.oblige(body, 'lemma', '%s.%s' % (name, label), g)
         outs = []
         res = self.block(s.body, body)
         exits = []
